@@ -315,6 +315,16 @@ pub fn c12(out: &mut dyn Write, tier: &str, rng: &mut Rng, st: &mut Stats) {
     let mut texts: Vec<Vec<u8>> = corpus_lines("C12").into_iter().map(|s| s.into_bytes()).collect();
     texts.extend(corpus_lines("C08").into_iter().map(|s| s.into_bytes()));
     texts.extend(corpus_lines("C01").into_iter().map(|s| s.into_bytes()));
+    // well-formed formulas whose evaluation fills the node table with several thousand nodes (growth of the table,
+    // of its capacity, of any bookkeeping tied to its size): x1..xn pairwise tied to y1..yn, all x before all y
+    for nn in if tier == "thorough" { vec![8usize, 9, 10, 11, 12] } else { vec![10usize, 11] } {
+        let mut t = String::from("(");
+        for j in 0..nn { t.push_str(&format!("x{} | ", j)); }
+        t.push_str("true)");
+        for j in 0..nn { t.push_str(&format!(" & (x{} <=> y{})", j, j)); }
+        texts.push(t.into_bytes());
+        st.hit("node-hungry");
+    }
     let n = if tier == "thorough" { 200000 } else { 4000 };
     for i in 0..n {
         let kind = if i < 64 { (i % 16) as u64 } else { rng.below(18) };
